@@ -26,7 +26,8 @@ ASSUMPTIONS = [
 ]
 HEADER = ('From Coq Require Import ZArith NArith List Init.Byte.\nFrom RSV Require Import lib.Bytes model.Frame model.Metadata '
           'corr.C18Corr corr.Harness.\nImport ListNotations.\nOpen Scope N_scope.\nDefinition chk := chk18.\n')
-SHARD = 200
+SHARD = 250
+SHARD_CHARS = 60000
 KINDS = ['item', 'route', 'dmime', 'amimes', 'simple', 'bearer']
 
 
@@ -393,6 +394,10 @@ def coq_odec(d, env=None):
     return '(Some %s)' % coq_entries(d[1], env)
 
 
+def _norm_dec(d):
+    return d if d[0] == 'ok' else d[:1]
+
+
 def has_weird(d):
     return d[0] == 'ok' and any(x[0] == 'weird' for x in d[1])
 
@@ -619,7 +624,7 @@ def _enc_cases(ctx, corr, lists):
     jobs = [('enc', list(zip(es, fs))) for es, fs in lists]
     outn = run_backend(jobs, native=True)
     outc = run_backend(jobs, native=False)
-    items, bufs = [], []
+    items, bufs, seeds = [], [], []
     for (es, fs), on, oc in zip(lists, outn, outc):
         corr.evaluations += 1
         for e in es:
@@ -636,17 +641,28 @@ def _enc_cases(ctx, corr, lists):
             continue
         env = FR.Env()
         _register_pats(env, es)
-        rc = ('ok', oc[1]) if oc[0] == 'ok' else ('raised',)
-        rn = ('ok', on[1]) if on[0] == 'ok' else ('raised',)
-        txt = 'CEnc %s %s %s' % (coq_entries(es, env), coq_obytes(rc, env), coq_obytes(rn, env))
         info = {'kind': 'enc', 'entries': es, 'forms': fs, 'impl_cbit': oc[:2], 'impl_native': on[:2]}
+        if oc[0] == 'ok' and on[0] == 'ok' and oc[1] == on[1] and _norm_dec(oc[2]) == _norm_dec(on[2]) \
+                and not has_weird(oc[2]):
+            # the common case, printed compactly: same bytes and same decoding under both back ends
+            if oc[2] == ('ok', list(es)):
+                txt = 'CRound %s %s' % (coq_entries(es, env), FR.pbytes(oc[1], env))
+            else:
+                txt = 'CEncDec %s %s %s' % (coq_entries(es, env), FR.pbytes(oc[1], env), coq_odec(oc[2], env))
+                info['impl_decoded'] = repr(oc[2])[:400]
+            seeds.append(oc[1])
+        else:
+            rc = ('ok', oc[1]) if oc[0] == 'ok' else ('raised',)
+            rn = ('ok', on[1]) if on[0] == 'ok' else ('raised',)
+            txt = 'CEnc %s %s %s' % (coq_entries(es, env), coq_obytes(rc, env), coq_obytes(rn, env))
+            for o_ in (oc, on):
+                if o_[0] == 'ok':
+                    bufs.append((o_[1], env))
+                    seeds.append(o_[1])
         items.append((txt, info))
-        for o_ in (oc, on):
-            if o_[0] == 'ok':
-                bufs.append((o_[1], env))
         if len(corr.samples) < 3 and len(es) >= 2 and oc[0] == 'ok' and len(oc[1]) < 80:
             corr.samples.append({'entries': [repr(e)[:70] for e in es], 'bytes_hex': oc[1].hex()})
-    return items, bufs
+    return items, bufs, seeds
 
 
 def _dec_cases(ctx, corr, bufs):
@@ -670,9 +686,12 @@ def _dec_cases(ctx, corr, bufs):
             corr.disagreements.append({'what': 'decoded item of an unexpected class / encoding', 'buf': b.hex(),
                                        'impl': repr(dc)[:300]})
             continue
-        if dn != dc:
+        if _norm_dec(dn) != _norm_dec(dc):
             corr.count('dec-backends-differ')
-        txt = 'CDec %s %s %s' % (FR.pbytes(b, env), coq_odec(dc, env), coq_odec(dn, env))
+        if _norm_dec(dn) == _norm_dec(dc):
+            txt = 'CDec1 %s %s' % (FR.pbytes(b, env), coq_odec(dc, env))
+        else:
+            txt = 'CDec %s %s %s' % (FR.pbytes(b, env), coq_odec(dc, env), coq_odec(dn, env))
         items.append((txt, {'kind': 'dec', 'buf': b.hex() if len(b) < 400 else b[:400].hex() + '...', 'impl_cbit': repr(dc)[:400],
                             'impl_native': repr(dn)[:400]}))
         if len(corr.samples) < 6 and kind in ('trunc', 'typed-custom-spelling') and len(b) > 6:
@@ -716,6 +735,8 @@ def _unit_cases(ctx, corr):
         corr.evaluations += 1
         corr.count('unit:' + job[0])
         k = job[0]
+        if on[0] == 'raised' and oc[0] == 'raised':
+            on = oc      # the exception classes differ between the back ends (TypeError / struct.error)
 
         def ob(o):
             return '(Some %s)' % cbytes(o[1]) if o[0] == 'ok' else 'None'
@@ -759,14 +780,13 @@ def correspond(ctx, corr, model_ok):
         lists.append((es, [gen_forms(rng) for _ in es]))
         if es and rng.random() < 0.5:
             lists.append((es, [gen_forms(rng) for _ in es]))
-    envs = []
-    for _ in range(ctx.scale(500, 8000)):
+    for _ in range(ctx.scale(350, 8000)):
         env = FR.Env()
         n = rng.choice([0, 1, 1, 2, 2, 3, 4, 6])
         es = [gen_entry(rng, env, big=(rng.random() < 0.03)) for _ in range(n)]
         lists.append((es, [gen_forms(rng) for _ in es]))
     # in-range mixtures (the round-trip clause needs many of these)
-    for _ in range(ctx.scale(400, 6000)):
+    for _ in range(ctx.scale(300, 6000)):
         env = FR.Env()
         es = []
         for _ in range(rng.choice([1, 2, 3, 4, 6])):
@@ -776,21 +796,29 @@ def correspond(ctx, corr, model_ok):
                     es.append(e)
                     break
         lists.append((es, [gen_forms(rng) for _ in es]))
-    enc_items, bufs = _enc_cases(ctx, corr, lists)
+    enc_items, bufs, seeds = _enc_cases(ctx, corr, lists)
     dbufs = [('serialized', b, env) for b, env in bufs]
-    dbufs += [(k, b, None) for k, b in malformed(rng, [b for b, _ in bufs], ctx.scale(120, 2500))]
+    dbufs += [(k, b, None) for k, b in malformed(rng, seeds, ctx.scale(120, 2500))]
     dec_items = _dec_cases(ctx, corr, dbufs)
     unit_items = _unit_cases(ctx, corr)
     if not model_ok:
         return
     items = enc_items + dec_items + unit_items
-    # balance shards by text size (a few cases carry 70000-byte payload expressions)
-    shards = ['Definition cases : list case18 := [\n' + ';\n'.join(x[0] for x in ch) + '\n].'
-              for ch in chunks(items, SHARD)]
+    # shards bounded both in cases and in literal text (parsing the literals dominates the cost)
+    groups, cur, size = [], [], 0
+    for it in items:
+        if cur and (len(cur) >= SHARD or size + len(it[0]) > SHARD_CHARS):
+            groups.append(cur)
+            cur, size = [], 0
+        cur.append(it)
+        size += len(it[0])
+    if cur:
+        groups.append(cur)
+    shards = ['Definition cases : list case18 := [\n' + ';\n'.join(x[0] for x in g) + '\n].' for g in groups]
     out = run_coq_cases(shards, HEADER, timeout=900)
     for si, (n, nf, idx) in enumerate(out):
         for i in idx:
-            info = items[si * SHARD + i][1]
+            info = groups[si][i][1]
             corr.disagreements.append(dict(info, what='metadata codecs (%s): implementation vs model/Metadata.v' % info['kind']))
 
 
